@@ -1,9 +1,9 @@
 import PxProofs.PersistReq
-import PxProofs.PersistWeb
+import PxProofs.PersistRev
 /-!
 # C04 — each request on a persistent connection is answered in order by the right origin
 
-Property theorems; helper lemmas are in `PxProofs/Persist{Lemmas,Refine,Seg,Port,Web,Req}.lean`.
+Property theorems; helper lemmas are in `PxProofs/Persist{Lemmas,Refine,Seg,Fwd,Port,Web,Rev,Req}.lean`.
 The model (`PxModel/Persist.lean`, over `Relay.lean`, `Parser.lean`, `Build.lean`, `Forward.lean`,
 `Connect.lean`, `Reverse.lean`) is tied to `proxy/http/handler.py`, `proxy/http/proxy/server.py`,
 `proxy/http/server/web.py`, `proxy/http/server/reverse.py`, `proxy/core/base/tcp_upstream.py` by the
@@ -17,35 +17,39 @@ the forward proxy / web server / reverse proxy, for EVERY way of cutting the byt
 handed — exactly once, in order — to the origin / route that `rᵢ` names, the client receives the
 responses in request order, and the proxy does not tear the connection down.
 
-It does not hold for the code as it is; the theorems `C04_witness_F1 … F4` below exhibit, on the
-model (kernel-evaluated), a concrete history for each of the four violated classes:
+It does not hold for the code as it is; the theorems `C04_witness_F2 … F4` below exhibit, on the
+model (kernel-evaluated), a concrete history for each of the three violated classes:
 
-* F1 (finding D13a): a segment that holds bytes of two requests — the second request stays in
-  `request.buffer` / is discarded with the follow-up parser and is never forwarded;
 * F2 (finding D13b): a follow-up request naming another origin is written to the FIRST origin's connection;
 * F3 (finding D13c): the web server hands every follow-up request to the FIRST request's route plugin;
 * F4 (finding D12): the reverse proxy opens a new upstream connection per request and abandons the
   previous one (with whatever was not yet written to / read from it).
 
+(F1, finding D13a — requests sharing a TCP segment were lost — is fixed by 84c574d; the former
+witnesses are kept as the regression examples `C04_regression_F1*`, which now show the right behaviour.)
+
 ## What is proved (partial)
 
-* `C04_partial_forward`: requests to one origin, no segment holding bytes of two requests — otherwise
-  every cut, every benign tick schedule (readiness subsets, partial writes, upstream data
-  interleaved anywhere): the upstream byte stream is exactly `fwd r₁ ++ fwd r₂ ++ …` (first
-  request with Via, later ones stripped, no Via: C02), one connect, no teardown, and (C01) what the
-  client has received plus what is queued for it is what the upstream sent, in order.
-  `C04_forward_relay` / `C04_forward_segments` are the same for arbitrary byte strings that parse as
-  one request each (no grammar assumed).
-* `C04_partial_web`: web server, keep-alive requests, no shared segments: `handle_request` of the
-  first request's route plugin is invoked once per request, in order, with that request.
-* `C04_partial_reverse`: reverse proxy, routes answered by the plugin itself (literal responses):
-  one answer per request, in order, no upstream connection.
+Since fix 84c574d the packing of requests into TCP segments is arbitrary in all three theorems:
+the hypothesis is only that the segments the client socket delivers concatenate to
+`render r₁ ++ render r₂ ++ …` (several requests per segment, requests split anywhere).
 
-Missing for the full statement: segments shared by two requests (F1), per-request origin selection
-(F2), per-request web routing (F3), a persistent upstream connection per reverse-proxied client
-(F4).  Responses are relayed as a byte stream (`C04_forward_relay`, last clause = C01): that each
-request gets exactly one response, in request order, additionally rests on the origin answering the
-requests it reads in order on that connection (assumption F5, stated in the harness).
+* `C04_partial_forward`: requests to one origin, every packing, every benign tick schedule
+  (readiness subsets, partial writes, upstream data interleaved anywhere): the upstream byte
+  stream is exactly `fwd r₁ ++ fwd r₂ ++ …` (first request with Via, later ones stripped, no Via:
+  C02), one connect, no teardown, and (C01) what the client has received plus what is queued for it
+  is what the upstream sent, in order.  `C04_forward_relay` / `C04_forward_segments` are the same for
+  arbitrary byte strings that parse as one request each (no grammar assumed).
+* `C04_partial_web`: web server, keep-alive requests, every packing: `handle_request` of the
+  first request's route plugin is invoked once per request, in order, with that request.
+* `C04_partial_reverse`: reverse proxy, routes answered by the plugin itself (literal responses),
+  every packing: one answer per request, in order, no upstream connection.
+
+Missing for the full statement: per-request origin selection (F2), per-request web routing (F3), a
+persistent upstream connection per reverse-proxied client (F4).  Responses are relayed as a byte
+stream (`C04_forward_relay`, last clause = C01): that each request gets exactly one response, in
+request order, additionally rests on the origin answering the requests it reads in order on that
+connection (assumption F5, stated in the harness).
 -/
 namespace Px.Persist
 open Px Px.Relay Px.Parser
@@ -53,43 +57,55 @@ open Px Px.Relay Px.Parser
 /-! ## forward proxy -/
 
 /-- **C04, forward proxy, segments.**  `x₁` is exactly one request that, as first request, leads to a
-connect to `a` and to `q₁` queued; `xs` are byte strings that are exactly one request each, forwarded
-as `qs`, none a protocol switch.  For every way of cutting each of them into non-empty pieces
-(`Cuts`: pieces of different requests never share a segment), the application steps over the
-concatenated segments end established with an idle pipeline parser, having queued for the upstream
-exactly `q₁ ++ q₂ ++ …` in order, with one connect. -/
+connect to `a` and to `q₁` queued; `tl` are byte strings that are exactly one request each, forwarded
+as `qs`, none a protocol switch.  For EVERY list of non-empty segments whose concatenation is the
+stream `x₁ ++ x₂ ++ …` (requests packed several per segment, cut anywhere), the application steps
+end established with an idle pipeline parser, having queued for the upstream exactly
+`q₁ ++ q₂ ++ …` in order, with one connect. -/
 theorem C04_forward_segments (cfg : Forward.Cfg) (ok : Bool) (x₁ : Bytes) (P₁ : Parser) (a : Connect.Addr)
-    (q₁ : Bytes) (xs qs : List Bytes) (segs₁ : List Bytes) (segss : List (List Bytes))
-    (h1 : FirstOk cfg ok x₁ P₁ a q₁) (hl : All₂ (LaterOk cfg) xs qs)
-    (hc1 : Cuts segs₁ x₁) (hc : All₂ Cuts segss xs) :
-    segRun cfg ok (.first (init .request)) (segs₁ ++ segss.flatten) =
-      some (.http P₁ none, q₁ ++ qs.flatten, [a]) :=
-  segRun_requests cfg ok x₁ P₁ a q₁ xs qs segs₁ segss h1 hl hc1 hc
+    (q₁ : Bytes) (tl : Reqs) (qs : List Bytes) (h1 : FirstOk cfg ok x₁ P₁ a q₁) (hl : LaterAll cfg tl qs)
+    (segs : List Bytes) (hne : ∀ seg ∈ segs, seg ≠ []) (hflat : segs.flatten = x₁ ++ stream tl) :
+    ∃ req, segRun cfg ok (.first (init .request)) segs = some (.http req none, q₁ ++ qs.flatten, [a]) :=
+  segRun_stream cfg ok x₁ P₁ a q₁ tl qs h1 hl segs hne [] (init .request) (.inl ⟨rfl, rfl⟩) x₁ rfl
+    (oneReq_ne_nil h1.1) (by simpa using hflat)
+
+theorem clientSegs_ne (ticks : List Tick) : ∀ seg ∈ clientSegs ticks, seg ≠ [] := by
+  intro seg hs
+  simp only [clientSegs, List.mem_filterMap] at hs
+  obtain ⟨t, _, ht⟩ := hs
+  split at ht
+  · unfold segOf at ht
+    split at ht
+    · split at ht
+      · cases ht
+      · rename_i b hb
+        simp only [Option.some.injEq] at ht
+        subst ht
+        intro h; simp [h] at hb
+    · cases ht
+  · cases ht
 
 /-- **C04, forward proxy, connection level.**  The same, for the whole connection under every
 benign tick schedule (`benign`: no peer closes, no `send`/`recv` fails; any readiness subset, any
-partial write, upstream data at any time) whose client reads deliver those segments: after the
-run the proxy has not torn the connection down, the pipeline parser is idle, the bytes written to
-the upstream plus those queued for it are exactly `q₁ ++ q₂ ++ …`, there was one connect, and
-(C01) delivered-to-client ++ queued-for-client = everything read from the upstream. -/
+partial write, upstream data at any time) whose client reads deliver that stream in any packing:
+after the run the proxy has not torn the connection down, the pipeline parser is idle, the bytes
+written to the upstream plus those queued for it are exactly `q₁ ++ q₂ ++ …`, there was one
+connect, and (C01) delivered-to-client ++ queued-for-client = everything read from the upstream. -/
 theorem C04_forward_relay (cfg : Forward.Cfg) (m : Nat) (x₁ : Bytes) (P₁ : Parser) (a : Connect.Addr)
-    (q₁ : Bytes) (xs qs : List Bytes) (segs₁ : List Bytes) (segss : List (List Bytes))
-    (h1 : FirstOk cfg true x₁ P₁ a q₁) (hl : All₂ (LaterOk cfg) xs qs)
-    (hc1 : Cuts segs₁ x₁) (hc : All₂ Cuts segss xs)
+    (q₁ : Bytes) (tl : Reqs) (qs : List Bytes) (h1 : FirstOk cfg true x₁ P₁ a q₁) (hl : LaterAll cfg tl qs)
     (ticks : List Tick) (hb : ∀ t ∈ ticks, benign t = true)
-    (hsegs : clientSegs ticks = segs₁ ++ segss.flatten) :
+    (hsegs : (clientSegs ticks).flatten = x₁ ++ stream tl) :
     (frun cfg true (finit m) ticks).2 = .cont ∧
-    (frun cfg true (finit m) ticks).1.phase = .http P₁ none ∧
+    (∃ req, (frun cfg true (finit m) ticks).1.phase = .http req none) ∧
     (frun cfg true (finit m) ticks).1.rs.sentU ++ (frun cfg true (finit m) ticks).1.rs.upstream.buffer.flatten
       = q₁ ++ qs.flatten ∧
     (frun cfg true (finit m) ticks).1.connects = [a] ∧
     (frun cfg true (finit m) ticks).1.rs.sentC ++ (frun cfg true (finit m) ticks).1.rs.client.buffer.flatten
       = (frun cfg true (finit m) ticks).1.rs.recvU := by
   obtain ⟨i1, i2, i3, i4, i5⟩ := finit_ok m
-  have hs := C04_forward_segments cfg true x₁ P₁ a q₁ xs qs segs₁ segss h1 hl hc1 hc
-  have r := frun_refines cfg true ticks (finit m) i1 i2 i3 hb (.http P₁ none) (q₁ ++ qs.flatten) [a]
-    (by rw [hsegs]; exact hs)
-  refine ⟨r.cont, r.phase, ?_, ?_, r.down⟩
+  obtain ⟨req, hs⟩ := C04_forward_segments cfg true x₁ P₁ a q₁ tl qs h1 hl (clientSegs ticks) (clientSegs_ne ticks) hsegs
+  have r := frun_refines cfg true ticks (finit m) i1 i2 i3 hb (.http req none) (q₁ ++ qs.flatten) [a] hs
+  refine ⟨r.cont, ⟨req, r.phase⟩, ?_, ?_, r.down⟩
   · have := r.up; rw [i4] at this; simpa [U] using this
   · have := r.connects; rw [i5] at this; simpa using this
 
@@ -105,9 +121,10 @@ def hostOf (r : Forward.Req) : Option Bytes := (originOf r).map (·.1)
 /-- **C04 (forward proxy), partial.**  For every non-empty list `r₁ :: rs` of well-formed
 absolute-form requests (C02's `Req.WF`: any method but CONNECT, any fields with unique names, no
 body / Content-Length / chunked in any layout), the follow-ups not protocol switches and naming
-`r₁`'s origin (host and port), delivered so that no TCP segment holds bytes of two requests — each `render rᵢ` cut
-anywhere into non-empty pieces — under every benign tick schedule: the proxy does not tear the
-connection down; it connects once, to `r₁`'s host; written to + queued for that upstream is exactly
+`r₁`'s origin (host and port), delivered in ANY packing — the segments the client socket delivers
+concatenate to `render r₁ ++ render r₂ ++ …`, several requests per segment, cut anywhere — under
+every benign tick schedule: the proxy does not tear the connection down; it connects once, to
+`r₁`'s host; written to + queued for that upstream is exactly
 `render (fwdImpl true cfg r₁) ++ render (fwdImpl false cfg r₂) ++ …` (by C02 each the forward form of
 its request: first with Via, later without — finding D10v); every request names the connected
 host; and (C01) the client has received / will receive the upstream's byte stream in order. -/
@@ -115,13 +132,11 @@ theorem C04_partial_forward (cfg : Forward.Cfg) (hcfg : Forward.CfgOk cfg) (m : 
     (r₁ : Forward.Req) (rs : List Forward.Req)
     (hwf : ∀ r ∈ r₁ :: rs, r.WF ∧ r.isAbsolute = true)
     (hnu : ∀ r ∈ rs, notUpgrade r = true) (hsame : ∀ r ∈ rs, originOf r = originOf r₁)
-    (segs₁ : List Bytes) (segss : List (List Bytes))
-    (hc1 : Cuts segs₁ (Forward.render r₁)) (hc : All₂ Cuts segss (rs.map Forward.render))
     (ticks : List Tick) (hb : ∀ t ∈ ticks, benign t = true)
-    (hsegs : clientSegs ticks = segs₁ ++ segss.flatten) :
-    ∃ (P₁ : Parser) (a : Connect.Addr),
+    (hsegs : (clientSegs ticks).flatten = Forward.render r₁ ++ (rs.map Forward.render).flatten) :
+    ∃ (a : Connect.Addr),
       (frun cfg true (finit m) ticks).2 = .cont ∧
-      (frun cfg true (finit m) ticks).1.phase = .http P₁ none ∧
+      (∃ req, (frun cfg true (finit m) ticks).1.phase = .http req none) ∧
       (frun cfg true (finit m) ticks).1.rs.sentU ++ (frun cfg true (finit m) ticks).1.rs.upstream.buffer.flatten
         = Forward.render (Forward.fwdImpl true cfg r₁) ++
             (rs.map (fun r => Forward.render (Forward.fwdImpl false cfg r))).flatten ∧
@@ -135,21 +150,25 @@ theorem C04_partial_forward (cfg : Forward.Cfg) (hcfg : Forward.CfgOk cfg) (m : 
     | absolute h p q => exact ⟨h, p, q, rfl⟩
     | origin q => simp [Forward.Req.isAbsolute, htg] at this
   obtain ⟨P₁, v, h1⟩ := firstOk_render cfg hcfg r₁ (hwf r₁ (by simp)).1 ht
-  have hl : All₂ (LaterOk cfg) (rs.map Forward.render)
-      (rs.map (fun r => Forward.render (Forward.fwdImpl false cfg r))) := by
+  have hl : ∃ tl : Reqs, tl.map (·.1) = rs.map Forward.render ∧
+      LaterAll cfg tl (rs.map (fun r => Forward.render (Forward.fwdImpl false cfg r))) := by
     have : ∀ l : List Forward.Req, (∀ r ∈ l, r.WF ∧ r.isAbsolute = true ∧ notUpgrade r = true) →
-        All₂ (LaterOk cfg) (l.map Forward.render) (l.map (fun r => Forward.render (Forward.fwdImpl false cfg r))) := by
+        ∃ tl : Reqs, tl.map (·.1) = l.map Forward.render ∧
+          LaterAll cfg tl (l.map (fun r => Forward.render (Forward.fwdImpl false cfg r))) := by
       intro l
       induction l with
-      | nil => intro _; exact .nil
+      | nil => intro _; exact ⟨[], rfl, .nil⟩
       | cons r l ih =>
         intro h
         obtain ⟨w, ab, nu⟩ := h r (by simp)
-        exact .cons (laterOk_render cfg hcfg r w ab nu) (ih (fun r' hr' => h r' (by simp [hr'])))
+        obtain ⟨P, hP⟩ := laterOk_render cfg hcfg r w ab nu
+        obtain ⟨tl, e, hh⟩ := ih (fun r' hr' => h r' (by simp [hr']))
+        exact ⟨(Forward.render r, P) :: tl, by simp [e], .cons hP hh⟩
     exact this rs (fun r hr => ⟨(hwf r (by simp [hr])).1, (hwf r (by simp [hr])).2, hnu r hr⟩)
-  obtain ⟨c1, c2, c3, c4, c5⟩ := C04_forward_relay cfg m (Forward.render r₁) P₁ _ _ _ _ segs₁ segss h1 hl hc1 hc
-    ticks hb hsegs
-  refine ⟨P₁, _, c1, c2, c3, c4, ?_, c5⟩
+  obtain ⟨tl, etl, hl⟩ := hl
+  obtain ⟨c1, c2, c3, c4, c5⟩ := C04_forward_relay cfg m (Forward.render r₁) P₁ _ _ tl _ h1 hl ticks hb
+    (by rw [hsegs, stream, etl])
+  refine ⟨_, c1, c2, c3, c4, ?_, c5⟩
   have h0 : hostOf r₁ = some host := by simp [hostOf, originOf, ht]
   intro r hr
   rcases List.mem_cons.1 hr with rfl | hr
@@ -158,46 +177,65 @@ theorem C04_partial_forward (cfg : Forward.Cfg) (hcfg : Forward.CfgOk cfg) (m : 
 
 /-! ## built-in web server -/
 
+theorem mem_of_norm_eq {l₁ l₂ : List Parser} (h : l₁.map norm = l₂.map norm) {P' : Parser} (hP : P' ∈ l₁) :
+    ∃ P ∈ l₂, norm P = norm P' := by
+  have : norm P' ∈ l₁.map norm := List.mem_map.2 ⟨P', hP, rfl⟩
+  rw [h] at this
+  obtain ⟨P, hP2, e⟩ := List.mem_map.1 this
+  exact ⟨P, hP2, e⟩
+
 /-- **C04 (web server), partial.**  `x₁` is exactly one web-server request whose path selects route
-plugin `k` (`_try_route`), `xs` are exactly one request each, all HTTP/1.1 keep-alive; every cut that
-keeps the requests in separate segments: `handle_request` of plugin `k` is invoked exactly once per
-request, in order, with exactly that request (`calls`), its answers are queued for the client in
-that order (`out`), the pipeline parser is idle and the connection stays routed (not closed).
-For requests whose paths all select plugin `k` this is the route each of them names. -/
-theorem C04_partial_web (cfg : WCfg) (x₁ : Bytes) (P₁ : Parser) (k : Nat) (xs : List Bytes) (Ps : List Parser)
-    (segs₁ : List Bytes) (segss : List (List Bytes))
-    (h1 : WebFirstOk cfg x₁ P₁ k) (hl : All₂ WebLaterOk xs Ps) (hc1 : Cuts segs₁ x₁) (hc : All₂ Cuts segss xs)
-    (hroute : ∀ P ∈ Ps, tryRoute cfg (webPath P) = some k) :
-    (wrun cfg {} (segs₁ ++ segss.flatten)).calls = (P₁ :: Ps).map (fun P => ((tryRoute cfg (webPath P)).getD 0, P)) ∧
-    (wrun cfg {} (segs₁ ++ segss.flatten)).out = (P₁ :: Ps).map (fun P => cfg.respond ((tryRoute cfg (webPath P)).getD 0) P) ∧
-    (wrun cfg {} (segs₁ ++ segss.flatten)).phase = .routed ∧
-    (wrun cfg {} (segs₁ ++ segss.flatten)).pipe = none := by
-  rw [wrun_requests cfg x₁ P₁ k xs Ps segs₁ segss h1 hl hc1 hc]
-  have hr1 : tryRoute cfg (webPath P₁) = some k := h1.2.2.2.2.1
-  refine ⟨?_, ?_, rfl, rfl⟩
-  · simp only [List.map_cons, hr1, Option.getD_some, List.cons.injEq, true_and]
-    exact List.map_congr_left (fun P hP => by rw [hroute P hP]; rfl)
-  · simp only [List.map_cons, hr1, Option.getD_some, List.cons.injEq, true_and]
-    exact List.map_congr_left (fun P hP => by rw [hroute P hP]; rfl)
+plugin `k` (`_try_route`), `tl` are exactly one request each, all HTTP/1.1 keep-alive, their paths
+selecting plugin `k` as well; for EVERY list of non-empty segments whose concatenation is
+`x₁ ++ x₂ ++ …`: `handle_request` is invoked exactly once per request, in order, each time on the
+plugin the request's path names and with exactly that request (`Ps'`: the one-piece parses, as
+data — `norm` sets the byte counter and the leftover buffer aside), its answers are queued for the
+client in that order, the pipeline parser is idle and the connection stays routed (not closed). -/
+theorem C04_partial_web (cfg : WCfg) (x₁ : Bytes) (P₁ : Parser) (k : Nat) (tl : Reqs)
+    (h1 : WebFirstOk cfg x₁ P₁ k) (hl : WebLaterAll tl) (hroute : ∀ r ∈ tl, tryRoute cfg (webPath r.2) = some k)
+    (segs : List Bytes) (hne : ∀ seg ∈ segs, seg ≠ []) (hflat : segs.flatten = x₁ ++ stream tl) :
+    ∃ Ps' : List Parser, Ps'.map norm = (P₁ :: tl.map (·.2)).map norm ∧
+      (wrun cfg ({}, none) segs).1.calls = Ps'.map (fun P => ((tryRoute cfg (webPath P)).getD 0, P)) ∧
+      (wrun cfg ({}, none) segs).1.out = Ps'.map (fun P => cfg.respond ((tryRoute cfg (webPath P)).getD 0) P) ∧
+      (wrun cfg ({}, none) segs).1.phase = .routed ∧ (wrun cfg ({}, none) segs).2 = none := by
+  have hd := wrun_stream cfg x₁ P₁ k tl h1 hl segs hne [] (init .request) (.inl ⟨rfl, rfl⟩) x₁ rfl
+    (oneReq_ne_nil h1.1) (by simpa using hflat)
+  obtain ⟨Ps', hn, hc, ho⟩ := hd.ex
+  have hk : ∀ P' ∈ Ps', tryRoute cfg (webPath P') = some k := by
+    intro P' hP'
+    obtain ⟨P, hP, e⟩ := mem_of_norm_eq hn hP'
+    have hw : webPath P' = webPath P := by
+      have h1' : webPath (norm P') = webPath P' := rfl
+      have h2' : webPath (norm P) = webPath P := rfl
+      rw [← h1', ← e, h2']
+    rw [hw]
+    rcases List.mem_cons.1 hP with rfl | hP
+    · exact h1.2.2.2.2.1
+    · obtain ⟨r, hr, rfl⟩ := List.mem_map.1 hP
+      exact hroute r hr
+  refine ⟨Ps', hn, ?_, ?_, hd.routed, hd.idle⟩
+  · rw [hc]; exact List.map_congr_left (fun P hP => by rw [hk P hP]; rfl)
+  · rw [ho]; exact List.map_congr_left (fun P hP => by rw [hk P hP]; rfl)
 
 /-! ## reverse proxy -/
 
 /-- **C04 (reverse proxy), partial.**  Requests all of whose matching routes are answered by the
-plugin itself (`handle_route` returns a literal response), HTTP/1.1 keep-alive, kept in separate
-segments: one `ReverseProxy.handle_request` per request, the answers are queued for the client in
-request order, no upstream connection is opened, the connection stays open. -/
-theorem C04_partial_reverse (cfg : RCfg) (x₁ : Bytes) (P₁ : Parser) (xs : List Bytes) (Ps : List Parser)
-    (segs₁ : List Bytes) (segss : List (List Bytes))
-    (h1 : RevFirstOk cfg x₁ P₁) (hl : All₂ (RevLaterOk cfg) xs Ps) (hc1 : Cuts segs₁ x₁) (hc : All₂ Cuts segss xs) :
-    let s := rrun cfg {} ((segs₁ ++ segss.flatten).map .cseg)
-    s.rv.client.buffer = revAnswer cfg true P₁ ++ (Ps.map (revAnswer cfg false)).flatten ∧
-    s.handled = 1 + Ps.length ∧ s.rv.connects = [] ∧ s.rv.upstream = none ∧ s.phase = .routed ∧ s.pipe = none := by
-  intro s
-  have e : s = _ := rrun_requests cfg x₁ P₁ xs Ps segs₁ segss h1 hl hc1 hc
-  rw [e]
-  exact ⟨rfl, rfl, rfl, rfl, rfl, rfl⟩
+plugin itself (`handle_route` returns a literal response), HTTP/1.1 keep-alive, in EVERY packing:
+one `ReverseProxy.handle_request` per request, the answers are queued for the client in request
+order, no upstream connection is opened, the connection stays open. -/
+theorem C04_partial_reverse (cfg : RCfg) (x₁ : Bytes) (P₁ : Parser) (tl : Reqs)
+    (h1 : RevFirstOk cfg x₁ P₁) (hl : ∀ r ∈ tl, RevLaterOk cfg r)
+    (segs : List Bytes) (hne : ∀ seg ∈ segs, seg ≠ []) (hflat : segs.flatten = x₁ ++ stream tl) :
+    let s := rrun cfg ({}, none) (segs.map .cseg)
+    s.1.rv.client.buffer = revAnswer cfg true P₁ ++ (tl.map (fun r => revAnswer cfg false r.2)).flatten ∧
+    s.1.handled = 1 + tl.length ∧ s.1.rv.connects = [] ∧ s.1.rv.upstream = none ∧ s.1.phase = .routed ∧
+    s.2 = none := by
+  have hd := rrun_stream cfg x₁ P₁ tl h1 hl segs hne [] (init .request) (.inl ⟨rfl, rfl⟩) x₁ rfl
+    (oneReq_ne_nil h1.1) (by simpa using hflat)
+  exact ⟨hd.answers, hd.handled, hd.connects, hd.upstream, hd.routed, hd.idle⟩
 
-/-! ## witnesses: the full statement fails on the model (kernel-evaluated) -/
+/-! ## regression examples (fixed finding D13a) and witnesses: the full statement fails on the model
+    (kernel-evaluated) -/
 
 /-- `GET http://a.example/<n> HTTP/1.1` + Host -/
 def reqA (n : Nat) : Bytes :=
@@ -223,24 +261,29 @@ def Phase.pipe : Phase → Option Parser
   | .http _ pl => pl
   | _ => none
 
-/-- **F1 (D13a): two requests in one segment.**  The client sends `reqA 1 ++ reqA 2` in ONE
-segment (a benign schedule; the upstream is then writable twice).  The connection is established and
-stays up, but the upstream was sent the first request only; the second sits in `request.buffer` of
-the completed first-request parser and no pipeline parser exists: it is never forwarded. -/
-theorem C04_witness_F1 :
+/-- **regression of F1 (fixed finding D13a): two requests in one segment.**  The client sends
+`reqA 1 ++ reqA 2` in ONE segment (a benign schedule; the upstream is then writable twice): both
+requests are forwarded, in order; nothing is left in `request.buffer`, the pipeline parser is idle. -/
+theorem C04_regression_F1 :
     let r := frun {} true (finit 0) [tickC (reqA 1 ++ reqA 2), tickUW, tickUW]
-    r.2 = .cont ∧ r.1.rs.sentU = fwdA true 1 ∧ r.1.rs.upstream.buffer = [] ∧
-    r.1.phase.leftover = some (reqA 2) ∧ r.1.phase.pipe = none ∧
+    r.2 = .cont ∧ r.1.rs.sentU = fwdA true 1 ++ fwdA false 2 ∧ r.1.rs.upstream.buffer = [] ∧
+    r.1.phase.leftover = none ∧ r.1.phase.pipe = none ∧
     ([tickC (reqA 1 ++ reqA 2), tickUW, tickUW].all benign) = true := by
   decide +kernel
 
-/-- **F1 (D13a), follow-up parser.**  `reqA 1`, then `reqA 2 ++ reqA 3` in one segment: the upstream
-is sent requests 1 and 2; request 3 was left in the follow-up parser's buffer and went away with it
-(`pipeline_request = None`): the pipeline parser is idle and nothing is pending. -/
-theorem C04_witness_F1_followup :
-    let r := frun {} true (finit 0) [tickC (reqA 1), tickUW, tickC (reqA 2 ++ reqA 3), tickUW, tickUW]
-    r.2 = .cont ∧ r.1.rs.sentU = fwdA true 1 ++ fwdA false 2 ∧ r.1.rs.upstream.buffer = [] ∧
+/-- **regression of F1, follow-up parser.**  `reqA 1`, then `reqA 2 ++ reqA 3` in one segment: all
+three requests reach the upstream, in order. -/
+theorem C04_regression_F1_followup :
+    let r := frun {} true (finit 0) [tickC (reqA 1), tickUW, tickC (reqA 2 ++ reqA 3), tickUW, tickUW, tickUW]
+    r.2 = .cont ∧ r.1.rs.sentU = fwdA true 1 ++ fwdA false 2 ++ fwdA false 3 ∧ r.1.rs.upstream.buffer = [] ∧
     r.1.phase.leftover = none ∧ r.1.phase.pipe = none := by
+  decide +kernel
+
+/-- **regression of F1, a request cut across segments after a complete one.**  `reqA 1 ++ (first 10
+bytes of reqA 2)`, then the rest of `reqA 2`: both forwarded. -/
+theorem C04_regression_F1_split :
+    let r := frun {} true (finit 0) [tickC (reqA 1 ++ (reqA 2).take 10), tickUW, tickC ((reqA 2).drop 10), tickUW, tickUW]
+    r.2 = .cont ∧ r.1.rs.sentU = fwdA true 1 ++ fwdA false 2 ∧ r.1.phase.pipe = none := by
   decide +kernel
 
 /-- **F2 (D13b): a follow-up request naming another origin.**  `reqA 1` then `reqB`
@@ -263,7 +306,7 @@ def webReq (path : String) : Bytes := b "GET " ++ b path ++ b " HTTP/1.1\r\nHost
 /-- **F3 (D13c): web server follow-ups go to the first request's route.**  `GET /a` then `GET /b`:
 `/b` selects plugin 1, but both requests are handed to plugin 0 and answered by it. -/
 theorem C04_witness_F3 :
-    let s := wrun webCfg2 {} [webReq "/a", webReq "/b"]
+    let s := (wrun webCfg2 ({}, none) [webReq "/a", webReq "/b"]).1
     s.calls.map (·.1) = [0, 0] ∧ s.calls.map (·.2.path) = [some (b "/a"), some (b "/b")] ∧
     s.out = [[48], [48]] ∧ tryRoute webCfg2 (b "/b") = some 1 := by
   decide +kernel
@@ -282,10 +325,11 @@ origin's answer is never relayed (only `self.upstream` is read): the client gets
 request 1.  (On the real executor the replaced socket is closed by reference counting and its
 descriptor number reused, which ends in a torn-down or stalled connection: harness oracle.) -/
 theorem C04_witness_F4 :
-    let s := rrun revCfg1 {} [.cseg (webReq "/a"), .uflush, .cseg (webReq "/a"), .uflush, .useg 0 (b "HTTP/1.1 200 OK\r\n\r\n")]
+    let st := rrun revCfg1 ({}, none) [.cseg (webReq "/a"), .uflush, .cseg (webReq "/a"), .uflush, .useg 0 (b "HTTP/1.1 200 OK\r\n\r\n")]
+    let s := st.1
     s.rv.connects = [(b "ua.example", 9001), (b "ua.example", 9001)] ∧ s.current = some 1 ∧
     s.wrote = [revFwd, revFwd] ∧ s.handled = 2 ∧ s.rv.client.buffer = [] ∧
-    (rstep revCfg1 s (.useg 1 (b "R2"))).rv.client.buffer = [b "R2"] := by
+    (rstep revCfg1 st (.useg 1 (b "R2"))).1.rv.client.buffer = [b "R2"] := by
   decide +kernel
 
 /-! ## non-vacuity: inhabitants of the hypotheses -/
@@ -312,11 +356,14 @@ example : (exR 49).WF ∧ (exR 50).WF ∧ exPost.WF := by decide +kernel
 example : ∀ r ∈ [exR 50, exPost], notUpgrade r = true ∧ originOf r = originOf (exR 49) ∧ r.isAbsolute = true := by
   decide +kernel
 example : Forward.CfgOk {} := by decide +kernel
-/-- a cut of `render (exR 49)` into three non-empty pieces, and of the follow-ups into 1 and 2 -/
-example : Cuts [(Forward.render (exR 49)).take 5, ((Forward.render (exR 49)).drop 5).take 20,
-    (Forward.render (exR 49)).drop 25] (Forward.render (exR 49)) := by
-  refine ⟨by decide +kernel, by decide +kernel⟩
-/-- a benign schedule that delivers those five segments with upstream data and partial writes in between -/
+/-- a packing of the three requests into two segments, the first holding the whole of `exR 49` and a
+    piece of `exR 50` -/
+example :
+    let x := Forward.render (exR 49) ++ (Forward.render (exR 50) ++ Forward.render exPost)
+    [x.take 60, x.drop 60].flatten = Forward.render (exR 49) ++ ([exR 50, exPost].map Forward.render).flatten ∧
+    (Forward.render (exR 49)).length < 60 ∧ ∀ seg ∈ [x.take 60, x.drop 60], seg ≠ [] := by
+  decide +kernel
+/-- a benign schedule: client segments with upstream data and partial writes in between -/
 example : ([tickC [1], tickUW, ⟨true, true, true, true, .data [2], .data [9, 9], .sent 1, .sslWantWrite, .raised⟩].all benign) = true ∧
     clientSegs [tickC [1], tickUW, ⟨true, true, true, true, .data [2], .data [9, 9], .sent 1, .sslWantWrite, .raised⟩] = [[1], [2]] := by
   decide +kernel
